@@ -26,6 +26,9 @@ structure PosObj (α : Type) where
   lat : α
   /-- longitude: `obj.pos.llh.val.T[1]` -/
   lon : α
+  /-- height above the object's own ellipsoid: `obj.pos.llh.val.T[2]` (only read by `vector` / `distance` /
+  `direction` of an observer given in llh) -/
+  h : α
 
 section
 variable {α : Type} [Add α] [Sub α] [Mul α] [Div α] [Neg α] [Zero α] [One α] [Trig α]
@@ -49,6 +52,18 @@ def vectorTo (self other : PosObj α) : V3 α := V3.sub other.trs self.trs
 def distanceTo (self other : PosObj α) : α := (vectorTo self other).norm
 /-- `PositionArray.direction_to` -/
 def direction (self other : PosObj α) : V3 α := directionTo self.trs other.trs
+
+/-- `obj.llh.val`: the coordinates of the object in the llh system -/
+def llhVal (o : PosObj α) : V3 α := ⟨o.lat, o.lon, o.h⟩
+/-- `PositionArray.vector_to` / `.vector` of an observer given **in llh**: the code subtracts the coordinates in the
+observer's own system, `other.pos.to_system(self.system).val - self.pos.val` — here (Δlat, Δlon, Δh), each object's
+geodetic coordinates on its own ellipsoid -/
+def vectorToLlh (self other : PosObj α) : V3 α := V3.sub other.llhVal self.llhVal
+/-- `PositionArray.distance_to` / `.distance` of an observer given in llh: the Euclidean norm of (Δlat, Δlon, Δh) — what
+the code computes, not a distance in space -/
+def distanceToLlh (self other : PosObj α) : α := (vectorToLlh self other).norm
+/-- `PositionArray.direction_to` / `.direction` of an observer given in llh -/
+def directionLlh (self other : PosObj α) : V3 α := (vectorToLlh self other).sdiv (distanceToLlh self other)
 
 /-- `PositionArray.azimuth_to(other)` / `.azimuth`: the direction to the target in the frame **of the observer** -/
 def azimuthTo (self other : PosObj α) : α :=
@@ -112,6 +127,40 @@ def rowsAcr2Trs (refs : List (PosObj α)) (ws : List (V6 α)) : List (V6 α) := 
 observers with row `i` of the targets -/
 def rowsAzElZd (obs tgt : List (PosObj α)) : List (α × α × α) :=
   List.zipWith (fun o t => (o.azimuthTo t, o.elevationTo t, o.zenithDistanceTo t)) obs tgt
+
+/-! ### the broadcasting the code accepts
+
+`(n, 3, 3) @ (m, 3, 1)` and `(m, 3) - (n, 3)`: NumPy pairs the rows when `n = m`, uses a single row — `(k,)` or `(1, k)` —
+for every row of the other operand, and raises `ValueError` otherwise. -/
+
+/-- the pairing of two stacks of rows, or `none` when NumPy refuses the shapes -/
+def broadcastRows {β γ : Type} (xs : List β) (ys : List γ) : Option (List β × List γ) :=
+  if xs.length = ys.length then some (xs, ys)
+  else match xs, ys with
+    | [x], _ => some (List.replicate ys.length x, ys)
+    | _, [y] => some (xs, List.replicate xs.length y)
+    | _, _ => none
+
+/-- a delta conversion with the reference positions broadcast against the values -/
+def rowsWithB {β : Type} (f : PosObj α → β → β) (refs : List (PosObj α)) (ds : List β) : Option (List β) :=
+  (broadcastRows refs ds).map (fun p => rowsWith f p.1 p.2)
+
+/-- azimuth / elevation / zenith distance with observers broadcast against targets -/
+def rowsAzElZdB (obs tgt : List (PosObj α)) : Option (List (α × α × α)) :=
+  (broadcastRows obs tgt).map (fun p => rowsAzElZd p.1 p.2)
+
+/-- the angle argument of `rotation.enu2trs` / `trs2enu`: a scalar or an `(n,)` array -/
+inductive Angles (α : Type) where
+  | scalar (a : α)
+  | array (as : List α)
+
+/-- `rotation.enu2trs(lat, lon)` / `rotation.trs2enu(lat, lon)` build the matrix with `np.array([[…], […], […]])` from the
+entries: that only works when `lat` and `lon` have the *same* shape — two scalars (one matrix) or two `(n,)` arrays of the
+same length (`n` matrices); a scalar with an array, or arrays of different lengths (also `(1,)` with `(n,)`), raise -/
+def angleMatrices (m : α → α → M3 α) : Angles α → Angles α → Option (List (M3 α))
+  | .scalar a, .scalar b => some [m a b]
+  | .array as, .array bs => if as.length = bs.length then some (List.zipWith m as bs) else none
+  | _, _ => none
 
 /-- rows `idx` of an array (`array[[i, j, …]]`, a slice or a mask written as its row numbers); a row number outside
 the array selects nothing (NumPy raises) -/
